@@ -1,9 +1,11 @@
 package main
 
 import (
+	"bufio"
 	"context"
 	"fmt"
 	"io"
+	"net"
 	"time"
 
 	"github.com/gobwas/ws"
@@ -465,6 +467,27 @@ func (s *c19WatchStream) Send(r *healthpb.HealthCheckResponse) error {
 	return nil
 }
 
+// c19Handshake: a WebSocket opening handshake (RFC 6455 section 4.1) written by hand, with the given Connection header
+func c19Handshake(addr, pathq, connection string) (net.Conn, *bufio.Reader, error) {
+	conn, err := net.DialTimeout("tcp", addr, 5*time.Second)
+	if err != nil {
+		return nil, nil, err
+	}
+	conn.SetDeadline(time.Now().Add(5 * time.Second))
+	fmt.Fprintf(conn, "GET %s HTTP/1.1\r\nHost: %s\r\nConnection: %s\r\nUpgrade: websocket\r\nSec-WebSocket-Version: 13\r\nSec-WebSocket-Key: dGhlIHNhbXBsZSBub25jZQ==\r\n\r\n", pathq, addr, connection)
+	br := bufio.NewReader(conn)
+	resp, err := http.ReadResponse(br, nil)
+	if err != nil {
+		conn.Close()
+		return nil, nil, err
+	}
+	if resp.StatusCode != http.StatusSwitchingProtocols {
+		conn.Close()
+		return nil, nil, fmt.Errorf("handshake answered %d", resp.StatusCode)
+	}
+	return conn, br, nil
+}
+
 // the statuses a websocket client of /v1/healthz sees: the current one, then the one set afterwards;
 // compared with what health.Server.Watch itself sends first, and the status set
 func c19Watch(sets [][2]string, name string, then int) (obs string) {
@@ -501,7 +524,14 @@ func c19Watch(sets [][2]string, name string, then int) (obs string) {
 	dctx, dcancel := context.WithTimeout(context.Background(), 5*time.Second)
 	defer dcancel()
 	// AddHealthz's websocket rule has no body: the request is the query string
-	conn, br, _, err := ws.Dial(dctx, "ws"+strings.TrimPrefix(lb.url, "http")+"/v1/healthz?service="+url.QueryEscape(name))
+	var conn net.Conn
+	var br *bufio.Reader
+	if v := (len(name) + then) % 3; v == 0 {
+		conn, br, _, err = ws.Dial(dctx, "ws"+strings.TrimPrefix(lb.url, "http")+"/v1/healthz?service="+url.QueryEscape(name))
+	} else {
+		// the handshake as browsers and proxies write it: Connection is a list of options, compared without case
+		conn, br, err = c19Handshake(strings.TrimPrefix(lb.url, "http://"), "/v1/healthz?service="+url.QueryEscape(name), []string{"", "keep-alive, Upgrade", "upgrade"}[v])
+	}
 	if err != nil {
 		return "dial-error " + want
 	}
